@@ -193,6 +193,70 @@ def hol_cases(B, progs, dirs, tier, seed, rep, stats):
 
 
 
+OBJ_FNS = ['log', 'sqrt', 'pow1.5', 'pow-0.5', 'ipow3', 'ipow-1', 'recip', 'powz', 'arcsin', 'arccos', 'arctanh', 'log1p', 'log2', 'log10',
+           'exp', 'tan', 'sec', 'cot', 'csch', 'arcsinh', 'expm1']
+OBJ_VALS = {1: [0.5, 0.0, 0.0, 0.0], 2: [0.75, 0.015625, 0.03125, -0.0078125], 3: [0.375, -0.03125, 0.0625, 0.015625], 4: [0.625, 0.0, 0.125, 0.0]}
+
+
+def obj_histories(B, tier, seed, rep, stats):
+    """spec/BicomplexObj.tla: histories of Apply / in-place updates on one Bicomplex array"""
+    cfg = ('CONSTANTS\n  NVals = 4\n  Fns = {%s}\n  MaxOps = 10\n  EmitOn = TRUE\nSPECIFICATION Spec\nCHECK_DEADLOCK FALSE\n'
+           'INVARIANT ApplyReadsCurrent\nPROPERTY ApplyIsPure\nCONSTRAINT Emit\n') % ', '.join('"%s"' % f for f in OBJ_FNS)
+    sim = vlib.tlc('BicomplexObj', cfg_text=cfg, simulate='num=%d' % (25 if tier == 'quick' else 400), depth=11, seed=seed + 3, workers=8, timeout=1800)
+    vlib.require_ok(sim)
+    if len(sim.records) < 50:
+        raise vlib.MachineryError('BicomplexObj: too few histories (%d)' % len(sim.records))
+
+    def ext(name, v):
+        z1, z2 = v[0] + 1j * v[1], v[2] + 1j * v[3]
+        with np.errstate(all='ignore'):
+            if name == 'powz':
+                p1, p2 = (z1 - 1j * z2) ** ((0.5 + 0.25j) - 1j * 0.125), (z1 + 1j * z2) ** ((0.5 + 0.25j) + 1j * 0.125)
+            else:
+                p1, p2 = CF[name](z1 - 1j * z2), CF[name](z1 + 1j * z2)
+        a, b = (p1 + p2) / 2, 1j * (p1 - p2) / 2
+        return np.array([a.real, a.imag, b.real, b.imag]), max(abs(p1), abs(p2), 1.0)
+    for r in sim.records:
+        Z = B(np.full(3, OBJ_VALS[1][0] + 1j * OBJ_VALS[1][1]), np.full(3, OBJ_VALS[1][2] + 1j * OBJ_VALS[1][3]))
+        for step, e in enumerate(r['hist']):
+            try:
+                if e['op'] == 'setitem':
+                    v, k = OBJ_VALS[e['v']], e['k'] - 1
+                    w = B(v[0] + 1j * v[1], v[2] + 1j * v[3])
+                    if e['how'] == 'index':
+                        Z[k] = w
+                    elif e['how'] == 'slice':
+                        Z[k:k + 1] = w
+                    else:
+                        Z.z1[k], Z.z2[k] = w.z1, w.z2
+                elif e['op'] == 'setall':
+                    v = OBJ_VALS[e['v']]
+                    Z.z1 = np.full(3, v[0] + 1j * v[1])
+                    Z.z2 = np.full(3, v[2] + 1j * v[3])
+                else:
+                    with np.errstate(all='ignore'):
+                        got = comps(bfun(e['fn'], Z, B)).reshape(4, -1)
+                    stats['obj_applies'] += 1
+                    for k in range(3):
+                        want, mag = ext(e['fn'], OBJ_VALS[e['want'][k]])
+                        tol = 1e4 * EPS * mag * 4.0
+                        if not np.abs(got[:, k] - want).max() <= tol:
+                            ops = ['%s%s' % (h['op'], [h.get(q) for q in ('fn', 'k', 'v', 'how') if q in h]) for h in r['hist'][:step + 1]]
+                            rep.violation('object-history:' + e['fn'], dict(history=r['hist'][:step + 1], element=k, got=got[:, k].tolist(), want=want.tolist()),
+                                          'after %s: element %d of Bicomplex.%s is %s, the holomorphic extension at the CURRENT element is %s' % (' ; '.join(ops[-4:]), k, e['fn'], got[:, k].tolist(), want.tolist()))
+                            raise StopIteration
+                    if comps(Z).reshape(4, -1).T.tolist() != [OBJ_VALS[i] for i in e['want']]:
+                        rep.violation('object-mutated:' + e['fn'], dict(history=r['hist'][:step + 1]), 'Bicomplex.%s changed its argument in place' % e['fn'])
+                        raise StopIteration
+            except StopIteration:
+                break
+            except Exception as ex:
+                rep.violation('object-raises', dict(history=r['hist'][:step + 1]), 'operation %s raised %r' % (e, ex))
+                break
+        stats['obj_histories'] += 1
+    return sim
+
+
 def run(tier, rep):
     seed = vlib.seed_from_env()
     from numdifftools.multicomplex import Bicomplex as B
@@ -205,12 +269,13 @@ def run(tier, rep):
         cfg = cfg.replace('MaxOps = 2', 'MaxOps = 3')
     pres = vlib.tlc('ExprMachine', cfg_text=cfg, tag='expr_c12', timeout=3000)
     vlib.require_ok(pres)
-    stats = dict(ring=0, fun=0, hol=0, skipped=0, skipped_zero_divisor=0, max_fun_ratio=0.0, max_hol_ratio=0.0)
+    stats = dict(obj_histories=0, obj_applies=0, ring=0, fun=0, hol=0, skipped=0, skipped_zero_divisor=0, max_fun_ratio=0.0, max_hol_ratio=0.0)
     ring_cases(B, [r for r in res.records if r['fam'] in ('ring', 'near')], rep, stats)
     fun_cases(B, [r for r in res.records if r['fam'] == 'fun'], rep, stats)
     hol_cases(B, pres.records, [r for r in res.records if r['fam'] == 'dir'], tier, seed, rep, stats)
-    states, trans, per = vlib.merge_tlc([res, pres])
-    cov = dict(states=states, transitions=trans, traces_validated_against_impl=stats['ring'] + stats['fun'] + stats['hol'],
+    ores = obj_histories(B, tier, seed, rep, stats)
+    states, trans, per = vlib.merge_tlc([res, pres, ores])
+    cov = dict(states=states, transitions=trans, traces_validated_against_impl=stats['ring'] + stats['fun'] + stats['hol'] + stats['obj_histories'],
                samples=[[r for r in res.records if r['fam'] == 'fun'][17], dict(prog=pres.records[30]['prog'], jet=pres.records[30]['jet'][:5])],
                evaluations=stats['ring'] + stats['fun'] + stats['hol'],
                distinct_nontrivial=len({(r['fn'], tuple(r['x0']), tuple(map(tuple, r['e'])), r['sh']) for r in res.records if r['fam'] == 'fun' and (r['e'][2][0] or r['e'][3][0])}),
